@@ -409,6 +409,16 @@ class Array(AbstractValueWithQuantityObject, Generic[ValuesType]):
             q2 = Quantity.CreateEmpty()
 
         else:
+            try:
+                different_lengths = len(p1.values) != len(p2.values)
+            except TypeError:
+                different_lengths = False  # 0D numpy arrays have no len()
+            if different_lengths:
+                # Note: the values must never be silently truncated (nor broadcasted by numpy).
+                raise ValueError(
+                    "operands could not be used together with lengths %d and %d"
+                    % (len(p1.values), len(p2.values))
+                )
             values_iteration = _ValueGenerator(p1.values, p2.values)
             q1 = p1.GetQuantity()
             q2 = p2.GetQuantity()
